@@ -143,7 +143,10 @@ def h_geom(I, key, kw, op):
     # fit precondition: the leaf is drawn completely inside the canvas
     I.assume(And(ox >= 0, oy >= 0, ox + lc <= canv.cols(), oy + lr <= canv.rows(), lc >= 1, lr >= 1))
     if op == "cursor":
+        del leaf.cursor_queries[:]
         rep = w.get_cursor_coords(size)
+        # the child is asked with the size it is rendered with (its cursor may depend on that size)
+        I.check("child_cursor_queried_with_its_render_size", all(q == leaf.last_size for q in leaf.cursor_queries))
         I.check("cursor_reported", rep is not None)
         if rep is not None:
             I.check("reported_cursor_equals_rendered_cursor", And(rep[0] == cur[0], rep[1] == cur[1]))
